@@ -1,5 +1,6 @@
 import ParryModel.C09.DriverA
 import ParryModel.C09.Model4
+import ParryModel.C09.Model5
 /-!
 # C09 protocol handlers, part C: `find_root_intervals(_to)` on concrete `IntervalFunction`s (polynomials of degree ≤ 4
 with known rational roots; `sin`), `Interval::sin` / `Interval::cos`.
@@ -123,8 +124,9 @@ def handlerC (fn : String) : Option Handler :=
         | none => "skip bad-args" }
   | "roots_poly_to" => some {
       model := fun a => run (do let p ← ppoly
-                                pure (match findRootIntervals p.fn p.init p.mw p.mi p.mr fuelF with
-                                      | some r => "0 " ++ fres ((⟨7.0, 7.5⟩ : Interval Float) :: r) | none => "fuel")) a
+                                pure (match findRootIntervalsTo p.fn p.init p.mw p.mi p.mr fuelF [(⟨7.0, 7.5⟩ : Interval Float)]
+                                              [((⟨-1000.0, 1000.0⟩ : Interval Float), 0), (p.init, 1)] with
+                                      | some r => "0 " ++ fres r | none => "fuel")) a
       oracle := fun a o => match run ppoly a with
         | some p => (match o with
           | "0" :: rest => withOut pores rest fun res =>
